@@ -1,6 +1,11 @@
 package checks
 
-import "fmt"
+import (
+	"fmt"
+	"sync"
+
+	"verif/symgo"
+)
 
 func C09(tier string) int {
 	h := Harness{File: "c09.go", Extra: []string{"lib_bondmachine.go"}, Pkg: "pkg/bondmachine"}
@@ -17,6 +22,29 @@ func C09(tier string) int {
 		cfgs = append(cfgs, Config{Name: fmt.Sprintf("kind=%d (%s) program_words=%d ticks=%d", f.kind, kinds[f.kind], f.words, f.T), Func: "zzC09",
 			Args: []Arg{I(f.kind), I(f.words), I(f.T)}, Setup: delayHooks})
 	}
+	// data races: happens-before race obligations over the goroutine model (symgo/race.go)
+	type rp struct{ shape, words, T int }
+	rfam := []rp{{0, 2, 2}, {1, 2, 3}, {2, 2, 2}, {3, 2, 3}, {4, 0, 0}}
+	if tier == "thorough" {
+		rfam = []rp{{0, 2, 3}, {0, 3, 4}, {1, 2, 4}, {1, 3, 6}, {2, 2, 3}, {2, 3, 4}, {3, 2, 4}, {3, 3, 6}, {4, 0, 0}}
+	}
+	shapes := []string{"one VM, two unbonded processors", "one VM, producer bonded to two consumers", "two simulations, each stepped by its own goroutine",
+		"one VM, producer bonded to two consumers, per-opcode delays", "witness: an unsynchronised shared write in the harness must be reported"}
+	for _, f := range rfam {
+		order := []int{2, 3, 4}
+		if f.shape == 2 {
+			order = nil
+		}
+		cfgs = append(cfgs, Config{Name: fmt.Sprintf("data-race freedom (%s) program_words=%d ticks=%d", shapes[f.shape], f.words, f.T), Func: "zzC09Race",
+			Args: []Arg{I(f.shape), I(f.words), I(f.T)}, Setup: func(in *symgo.Interp) {
+				delayHooks(in)
+				in.MaxUnion = 64
+				in.RaceDetect = true
+				in.SchedOrder = order
+			}})
+	}
+	var raceMu sync.Mutex
+	raceCells, racePairs := 0, 0
 	sp := &Spec{
 		ID: "C09", Level: "model_checking", Tier: tier, Harness: h,
 		LoadPkgs: []string{"pkg/bondmachine"},
@@ -25,7 +53,8 @@ func C09(tier string) int {
 		Assumptions: []string{
 			"narrowed claim: STATE ISOLATION only. Decided: (0) the result of VM.Step does not depend on the order in which the per-processor workers run (two orders of a run-until-block scheduler), (1) a processor's state does not depend on another, unbonded processor of the same VM, (2) a simulation's state does not depend on another simulation stepped in the same process - for all programs over {add,addp,cpy,dec,divp,inc,j,multp,nop,rset} of the stated size, all register values and ALL values of the hidden mutable state reachable from procbuilder.Allopcodes (found by walking the heap after init)",
 			"kind 3: per-opcode delay distributions are single-delay maps whose delay is a solver variable in 0..2; simbox.DelayDistribution.GetValue is stubbed by its contract (returns one of the delays of the distribution)",
-			"NOT decided: Go-scheduler interleavings finer than a processor step, GOMAXPROCS, the race detector's verdict, goroutine timing, simbox/delaydistr.go and bmnumbers/dynamical_type.go registries under concurrent callers; the dynamically created fixed-point/FXP/linear-quantiser opcodes (floating point, not encodable)",
+			"data-race freedom configurations: the harness only steps the machines; the obligations are the engine's happens-before race obligations (symgo/race.go): segments cut at go/send/receive/lock/unlock, ordered by program order, go, send->receive, receive->completion of the (k+cap)-th send, unlock->later lock; cells compared by identical object and access path (a whole-struct copy against a field write is missed), accesses inside natives (copy, append) not recorded; one obligation per cell with unordered conflicting accesses: the guards of the two accesses cannot hold together. A witness configuration (an unsynchronised shared write in the harness) must be reported, else the check fails as vacuous. A race counterexample is confirmed by exact evaluation under the model, not by a native run (the Go scheduler cannot be forced)",
+			"NOT decided: Go-scheduler interleavings finer than a processor step, GOMAXPROCS, the native race detector's verdict, goroutine timing, simbox/delaydistr.go and bmnumbers/dynamical_type.go registries under concurrent callers; the dynamically created fixed-point/FXP/linear-quantiser opcodes (floating point, not encodable)",
 			"induction over ticks extends the bounded result provided the barrier in VM.Step is the only synchronisation (assumed)",
 		},
 		Bounds: map[string]interface{}{"family_kind_words_ticks": fam, "opcodes": "add,addp,cpy,dec,divp,inc,j,multp,nop,rset", "register_size": 8},
@@ -33,13 +62,44 @@ func C09(tier string) int {
 	}
 	// a worker order cannot be forced on the real Go scheduler: order-dependence counterexamples are
 	// confirmed by concrete evaluation of the obligation under the model, the others are replayed natively
-	sp.ModelConfirmed = func(o *Outcome, ob *OblResult) bool { return o.Config.Args[0].I == 0 }
+	// a data race cannot be replayed deterministically either: same treatment
+	sp.ModelConfirmed = func(o *Outcome, ob *OblResult) bool { return o.Config.Args[0].I == 0 || ob.Pos == "race" }
+	sp.Opts.Post = func(o *Outcome, in *symgo.Interp) {
+		if in.RaceDetect {
+			c, p := in.RaceObligations()
+			if o.Config.Args[0].I == 4 {
+				// the witness: its race obligation must come back violated; it is turned into a reachability marker
+				found := false
+				kept := in.Verdicts[:0]
+				for _, v := range in.Verdicts {
+					if v.Obl.Pos == "race" {
+						found = found || (v.Result == "violated" && v.Confirmed)
+						continue
+					}
+					kept = append(kept, v)
+				}
+				in.Verdicts = kept
+				if found {
+					in.Verdicts = append(in.Verdicts, symgo.Verdict{Obl: &symgo.Obligation{Kind: "reach", Tag: "race-witness-reported"}, Result: "reachable"})
+				} else {
+					o.Err = "the race witness (unsynchronised shared write in the harness) was not reported"
+				}
+				return
+			}
+			raceMu.Lock()
+			raceCells += c
+			racePairs += p
+			raceMu.Unlock()
+		}
+	}
 	sp.Extra = func(cov map[string]interface{}, outs []Outcome) {
 		n := 0
 		for _, o := range outs {
 			n += int(o.Config.Args[2].I) * 2
 		}
 		cov["states"], cov["transitions"], cov["traces_validated_against_impl"] = n, n, 0
+		cov["race_cells_shared_between_goroutines"] = raceCells
+		cov["race_unordered_conflicting_segment_pairs"] = racePairs
 	}
 	return Execute(sp)
 }
